@@ -107,7 +107,7 @@ def verify_function(src, reg, qual, timeout_ms=10000, select=None):
     ex = Exec(src, reg)
     w, o = ex.w, ex.o
     st = State(w)
-    st.assume(st.alloc >= 0)
+    st.assume(st.alloc >= 16)   # references 1..15 are reserved for module-level singletons (hash algorithms)
     names = {}
     a = fn.args
     params = [p.arg for p in a.posonlyargs + a.args + a.kwonlyargs]
@@ -134,7 +134,7 @@ def verify_function(src, reg, qual, timeout_ms=10000, select=None):
         ty = v.ty if (i == 0 and cls is not None) else ty
         if ty not in ("any", "V"):
             st.assume(o.is_type(v.e, ty))
-        st.assume(z3.Implies(w.V.is_ref(v.e), w.V.r(v.e) <= st.alloc))
+        st.assume(z3.Implies(w.V.is_ref(v.e), z3.And(w.V.r(v.e) > 0, w.V.r(v.e) <= st.alloc)))
         if v.ty and v.ty.startswith("ref:"):
             st.terms.append(("ref", o.r(v)))
         st.locals[p] = names[p] = v
@@ -143,7 +143,7 @@ def verify_function(src, reg, qual, timeout_ms=10000, select=None):
     cx.fn_old, cx.fn_names = init, names
     try:
         spa = Spec(init, names, mode="assume")
-        for lbl, rq in c.requires.items():
+        for lbl, rq in list(c.requires.items()) + list(c.assumes.items()):
             st.assume(ex.spec_truth(st, rq, Ctx(mod, cls).with_spec(spa)))
         cinv = reg.class_invs.get(cls, {}) if (cls and c.cinv is not False) else {}
         cinv_all = cinv
